@@ -349,10 +349,15 @@ impl Ast {
         // number of files) with a definition, or a member of a definition with a definition inside the module of the
         // same name (field `B` of `M::A` and struct `B` of module `M::A`). Which of them a lookup finds must not
         // depend on which was parsed first: definitions take precedence over members, and members over modules.
+        // Members of different kinds can collide in the same way (parameter `C` of operation `M::A::B` and field `C`
+        // of struct `B` of module `M::A`), so each kind of member has a precedence of its own.
         let precedence = |node: &Node| match node {
             Node::Module(_) => 0,
-            Node::Field(_) | Node::Enumerator(_) | Node::Operation(_) | Node::Parameter(_) => 1,
-            _ => 2,
+            Node::Parameter(_) => 1,
+            Node::Operation(_) => 2,
+            Node::Enumerator(_) => 3,
+            Node::Field(_) => 4,
+            _ => 5,
         };
         let new_precedence = precedence(&self.elements[index]);
         let is_shadowed = self.lookup_table.get(&scoped_identifier).is_some_and(|&existing| {
